@@ -153,7 +153,7 @@ theorem foldSpectrum_congr {α} [Field α] [CharZero α] (fill : α) (shape : Li
 
 /-! ### list sums as range sums -/
 
-theorem list_range_sum {α} [AddCommMonoid α] (f : Nat → α) (n : Nat) :
+theorem fold_list_range_sum {α} [AddCommMonoid α] (f : Nat → α) (n : Nat) :
     ((List.range n).map f).sum = ∑ i ∈ Finset.range n, f i := by
   induction n with
   | zero => simp
@@ -169,7 +169,7 @@ theorem list_eq_map_getD {α} (d : α) (x : List α) :
 theorem list_sum_eq_range {α} [AddCommMonoid α] (x : List α) :
     x.sum = ∑ i ∈ Finset.range x.length, x.getD i 0 := by
   conv_lhs => rw [list_eq_map_getD 0 x]
-  exact list_range_sum _ _
+  exact fold_list_range_sum _ _
 
 /-! ### mass -/
 
@@ -200,7 +200,7 @@ theorem fold_mass_range {α} [Field α] [CharZero α] (shape : List Nat) (x : Na
 theorem foldSpectrum_mass {α} [Field α] [CharZero α] (shape : List Nat) (x : List α)
     (hlen : x.length = size shape) :
     (foldSpectrum (1/2 : α) 0 shape x).sum = x.sum := by
-  rw [foldSpectrum_eq, list_range_sum, list_sum_eq_range x, hlen]
+  rw [foldSpectrum_eq, fold_list_range_sum, list_sum_eq_range x, hlen]
   rw [← fold_mass_range shape (fun i => x.getD i 0)]
   exact Finset.sum_congr rfl (fun i _ => foldCell_cw shape x i)
 
